@@ -36,8 +36,10 @@ def _start_mc(tier):
         if os.path.exists(out):
             os.unlink(out)
         try:
+            # per-action coverage (vacuity self-test) is collected in the quick configuration only:
+            # it slows TLC down considerably on the larger space
             r = tlc.run_tlc("MC_Select", "MC_Select_%s_%s" % (isa, tier), env={"OUTFILE": out}, workers=8,
-                            timeout=1500, coverage=True)
+                            timeout=2400, coverage=(tier == "quick"))
             recs = {}
             for rec in tlc.read_emitted(out):
                 recs[(rec["style"], tuple(rec["f"]), rec["np"], rec["nb"])] = rec
@@ -78,7 +80,7 @@ def _start_mc(tier):
             run.add_mc(r, "MC_Select_%s_%s" % (isa, tier))
             for act in ("SeeBeginComment", "SeeEndComment", "SeeStartMov", "SeeEndMov", "SeeBytes", "MatchDone",
                         "SeeOther", "Stop"):
-                if r.coverage.get(act, (0, 0))[0] == 0:
+                if tier == "quick" and r.coverage.get(act, (0, 0))[0] == 0:
                     raise tlc.TLCError("action %s of MC_Select never taken (%s)" % (act, isa))
         r = res["lines"][0]
         run.add_mc(r, "MC_SelectLines_%s" % tier)
@@ -467,8 +469,8 @@ def main(tier, seed):
         for rel in eq_files[isa]:
             for arch in archs[isa]:
                 jobs1.append(("equal", (rel, isa, arch, seed, False)))
-                if not quick:
-                    jobs1.append(("equal", (rel, isa, arch, seed, True)))
+                if not quick and arch in sc.archs_for(isa, "quick"):
+                    jobs1.append(("equal", (rel, isa, arch, seed, True)))  # --fixed on the small models
     order = {"equal": 0, "scan": 1, "rand": 2, "lines": 3, "shipped": 4}
     jobs1.sort(key=lambda j: order[j[0]])
     results1 = sc.pool_map(_job, jobs1, WORKERS)
